@@ -245,6 +245,9 @@ def run(index, rep, tier):
     rep.rule("R09.9", "writers do not grow the matrix they write: a CharacterMatrix is subscripted only with taxa obtained by iterating it or tested for membership (its __getitem__ auto-creates rows)")
     with rep.section("R09.9"):
         rep.floor("R09.9", "matrix[taxon] reads in the writers", 5, matrix_read_rule(index, rep, "R09.9", ["dendropy.dataio.nexuswriter", "dendropy.dataio.phylipwriter", "dendropy.dataio.fastawriter", "dendropy.dataio.nexmlwriter"]))
+    rep.rule("R09.10", "cell values are written losslessly: the matrix writers format numbers with str/%s/{} only (shared with R02.6)")
+    with rep.section("R09.10"):
+        rep.floor("R09.10", "format strings in the matrix writers", 40, c02.lossless_format_rule(index, rep, "R09.10", ["dendropy.dataio.nexuswriter", "dendropy.dataio.nexmlwriter", "dendropy.dataio.phylipwriter", "dendropy.dataio.fastawriter"]))
     rep.rule("R09.7", "per-matrix parser state: every accumulator field the NeXML characters parser fills while reading one matrix is re-initialised at the start of the next (the parser object is reused across matrices)")
     nacc = unit_state_rule(index, rep, "R09.7", NXR + "._NexmlCharBlockParser", "parse_char_matrix", NXR + ".NexmlReader._parse_char_matrices")
     rep.floor("R09.7", "accumulator fields of the NeXML characters parser", 5, nacc)
